@@ -94,6 +94,10 @@ def gen_frame(rng, t, ncols: int, kind: str) -> dict:
                 keys = ["-----"] if rng.random() < 0.5 else ["-----", "G1", "G2"]  # the library's divider value
             if kind == "grouped":
                 vals = sorted(rng.choice(keys) for _ in range(nrows))
+                if rng.random() < 0.15 and vals:
+                    # one whole group has a missing key (still contiguous)
+                    drop = rng.choice(vals)
+                    vals = [None if v == drop else v for v in vals]
             elif kind == "broken2":
                 if nrows < 4:
                     nrows = 4
